@@ -543,3 +543,92 @@ u61_harness!(u61_clean_logs_f2_m2, 2, 2);
 u61_harness!(u61_clean_logs_f2_m1, 2, 1);
 u61_harness!(u61_clean_logs_f3_m2, 3, 2);
 u61_harness!(u61_clean_logs_f3_m8, 3, 8);
+
+// ================================================================== U63: Log::open_log_file classifies what it finds at the head of a log file
+// A log file that ends before the first record header is complete (a crash while the first record was being appended) holds
+// no record: it must be reported as empty -- Log::open then discards it and the database opens -- and not as an error, which
+// would make every later open fail.  A read failure other than a clean end of file is reported.  A complete header yields the
+// id it holds.  open(2) / fstat / read(2) / lseek are foreign: OpenOptions::open, File::metadata + Metadata::len,
+// <File as Read>::read and <File as Seek>::seek are replaced by contracts over a scripted file (HEAD_LEN bytes available).
+pub(crate) static mut HEAD_LEN: usize = 0;
+pub(crate) static mut HEAD_POS: usize = 0;
+pub(crate) static mut HEAD_BYTES: [u8; 9] = [0; 9];
+pub(crate) static mut HEAD_READ_FAILS: bool = false;
+pub(crate) static mut HEAD_REWOUND: bool = false;
+pub(crate) fn stub_oo_open<P: AsRef<std::path::Path>>(_o: &std::fs::OpenOptions, _p: P) -> std::io::Result<std::fs::File> {
+	use std::os::fd::FromRawFd;
+	Ok(unsafe { std::fs::File::from_raw_fd(3) })
+}
+pub(crate) fn stub_file_metadata(_f: &std::fs::File) -> std::io::Result<std::fs::Metadata> {
+	Ok(unsafe { std::mem::zeroed() })
+}
+pub(crate) fn stub_metadata_len(_m: &std::fs::Metadata) -> u64 {
+	unsafe { HEAD_LEN as u64 }
+}
+pub(crate) fn stub_file_read(_f: &mut std::fs::File, buf: &mut [u8]) -> std::io::Result<usize> {
+	unsafe {
+		if HEAD_READ_FAILS {
+			return Err(std::io::Error::from_raw_os_error(5))
+		}
+		let left = HEAD_LEN - HEAD_POS;
+		let n = if buf.len() < left { buf.len() } else { left };
+		let mut i = 0;
+		while i < n {
+			buf[i] = HEAD_BYTES[HEAD_POS + i];
+			i += 1;
+		}
+		HEAD_POS += n;
+		Ok(n)
+	}
+}
+pub(crate) fn stub_file_seek_rewind(_f: &mut std::fs::File, pos: std::io::SeekFrom) -> std::io::Result<u64> {
+	unsafe {
+		if let std::io::SeekFrom::Start(0) = pos {
+			HEAD_REWOUND = true;
+			HEAD_POS = 0;
+		}
+	}
+	Ok(0)
+}
+fn u63_body(len: usize, read_fails: bool) {
+	let bytes: [u8; 9] = kani::any();
+	unsafe {
+		HEAD_LEN = len;
+		HEAD_POS = 0;
+		HEAD_BYTES = bytes;
+		HEAD_READ_FAILS = read_fails;
+		HEAD_REWOUND = false;
+	}
+	let r = ok(Log::open_log_file(std::path::Path::new("log0")));
+	if read_fails && len > 0 {
+		assert!(r.is_none(), "U63.open_log_file.a_read_failure_is_reported");
+	} else if len < 9 {
+		// no complete record header: the file holds no record (Log::open discards such a file)
+		match &r {
+			Some((_, id)) => assert!(id.is_none(), "U63.open_log_file.a_file_without_a_complete_header_holds_no_record"),
+			None => assert!(false, "U63.open_log_file.a_truncated_header_is_not_an_error"),
+		}
+	} else {
+		let mut w = [0u8; 8];
+		w.copy_from_slice(&bytes[1..9]);
+		match &r {
+			Some((_, id)) => {
+				assert!(*id == Some(u64::from_le_bytes(w)), "U63.open_log_file.first_record_id_is_read_from_the_header");
+				assert!(unsafe { HEAD_REWOUND }, "U63.open_log_file.file_is_rewound_for_replay");
+			},
+			None => assert!(false, "U63.open_log_file.no_error_on_a_readable_header"),
+		}
+	}
+	kani::cover!(r.is_some() || read_fails, "reached");
+	std::mem::forget(r);
+}
+macro_rules! u63_harness {
+	($name:ident, $len:expr, $fails:expr) => {
+		writer_harness!(#[kani::unwind(11)] #[kani::stub(std::fs::OpenOptions::open, stub_oo_open)] #[kani::stub(std::fs::File::metadata, stub_file_metadata)] #[kani::stub(std::fs::Metadata::len, stub_metadata_len)] #[kani::stub(<std::fs::File as std::io::Read>::read, stub_file_read)] #[kani::stub(<std::fs::File as std::io::Seek>::seek, stub_file_seek_rewind)] #[kani::stub(<std::os::fd::OwnedFd as std::ops::Drop>::drop, stub_owned_fd_drop)] $name, u63_body($len, $fails));
+	};
+}
+u63_harness!(u63_open_log_file_len0, 0, false);
+u63_harness!(u63_open_log_file_len1, 1, false);
+u63_harness!(u63_open_log_file_len8, 8, false);
+u63_harness!(u63_open_log_file_len9, 9, false);
+u63_harness!(u63_open_log_file_len9_read_fails, 9, true);
